@@ -119,7 +119,7 @@ def run(tier):
     for (r, c) in typos:
         k = regclass(r)
         if k == "r":
-            tmpls = ["mov %s, rbx", "add rbx, %s", "lea rax, [%s]", "lea rax, [rbx+%s*2]", "push %s"]
+            tmpls = ["mov %s, rbx", "add rbx, %s", "lea rax, [%s]", "lea rax, [rbx+%s*2]", "push %s", "bextr rax, rbx, %s", "imul rax, %s, 5", "shld rax, %s, cl", "mulx rax, %s, rcx"]
         elif k == "v":
             tmpls = ["paddb %s, xmm1", "vpaddb xmm1, xmm2, %s"] if r[0] == "x" else ["vpaddb %s, ymm1, ymm2", "vpaddb ymm1, ymm2, %s"]
         else:
